@@ -942,7 +942,7 @@ static long do_call(jv *c, jv **extra)
     int was = K->in_api; K->in_api = 1; /* release through the library's own function - or keep for the next drain of this script */
     char *ss[3] = { NULL, s1, same ? NULL : s2 };
     for (int id = 1; id <= 2; id++) if (ss[id]) {
-      if (r != -12 && !kept_str[id] && fn[0] == 'd') { kept_str[id] = ss[id]; if (sk_is_alloc(ss[id])) kept_ledger++; }   /* (kept also after a timeout or another sink's refusal: the next drain appends to it) */
+      if (r != -12 && !kept_str[id] && fn[0] == 'd' && !keep_going) { kept_str[id] = ss[id]; if (sk_is_alloc(ss[id])) kept_ledger++; }   /* (kept also after a timeout or another sink's refusal: the next drain appends to it) */
       else reproc_free(ss[id]);
     }
     K->in_api = was;
